@@ -107,3 +107,24 @@ package recordio
 //@   exit [C19:file-closed] r0 == nil ==> called(File.Close, 0) && callres(File.Close, 0, 0) == nil
 //@   exit [C04,C07:buffer-flushed] r0 == nil ==> called(WriteSeekerCloserFlusher.Flush, 0) && callres(WriteSeekerCloserFlusher.Flush, 0, 0) == nil
 //@   ensures [marked-closed] w.closed && !w.open
+
+// ---------------------------------------------------------------------------------------------------
+// Sequential reader (C04): skipping a record moves to the same position reading it would.
+
+//@ iface ByteReaderResetCount.Count
+//@   pure
+
+//@ func readRecordHeaderV4
+//@   assumed
+//@   modifies *
+
+//@ func (*FileReader).SkipNext
+//@   props C04
+//@   replay file_writer_programs
+//@   requires r.file != nil && r.reader != nil && r.header != nil && r.recordHeaderByteReader != nil
+//@   // (guard: the header lengths and offsets are far from the 64-bit limits, so the Go arithmetic does not wrap)
+//@   call 0 of File.Seek: assert [C04:skip-lands-after-the-stored-payload] callres(readRecordHeaderV4, 0, 3) == nil &&
+//@        (r.currentOffset < 1152921504606846976 && callres(readRecordHeaderV4, 0, 0) < 1152921504606846976 && callres(readRecordHeaderV4, 0, 1) < 1152921504606846976 &&
+//@         callres(ByteReaderResetCount.Count, 0, 0) <= callres(ByteReaderResetCount.Count, 1, 0) && callres(ByteReaderResetCount.Count, 1, 0) < 1152921504606846976 ==>
+//@        arg0 == r.currentOffset + (callres(ByteReaderResetCount.Count, 1, 0) - callres(ByteReaderResetCount.Count, 0, 0)) +
+//@                (callres(readRecordHeaderV4, 0, 2) ? 0 : (r.header.compressor == nil ? callres(readRecordHeaderV4, 0, 0) : callres(readRecordHeaderV4, 0, 1))))
